@@ -337,6 +337,3 @@ func (g *GraphChecker) Check(e *Env, paths []string) []GraphIssue {
 }
 
 func sha256Sum(s string) [32]byte { return sha256.Sum256([]byte(s)) }
-
-// NewGraphCheckers is a placeholder kept for API symmetry (one checker per worker is created lazily by users).
-func NewGraphCheckers() map[*Env]*GraphChecker { return map[*Env]*GraphChecker{} }
